@@ -234,6 +234,21 @@ impl Stats {
     }
 }
 
+/// run `f` with fd 1 pointing at /dev/null (rdp-rs prints diagnostics on stdout), then restore it
+pub fn with_silenced_stdout<T>(f: impl FnOnce() -> T) -> T {
+    use std::io::Write;
+    let _ = std::io::stdout().flush();
+    let saved = unsafe { libc::dup(1) };
+    silence_stdout();
+    let r = f();
+    let _ = std::io::stdout().flush();
+    unsafe {
+        libc::dup2(saved, 1);
+        libc::close(saved);
+    }
+    r
+}
+
 pub fn silence_stdout() {
     unsafe {
         let fd = libc::open(b"/dev/null\0".as_ptr() as *const libc::c_char, libc::O_WRONLY);
@@ -344,7 +359,7 @@ pub fn work_dir(id: &str) -> PathBuf {
 /// run the whole sweep; returns merged results. Machinery failures are returned as Err.
 pub fn run_parent(prop: &mut dyn Prop, tier: Tier) -> Result<RunResult, String> {
     let t0 = Instant::now();
-    prop.prepare(tier)?;
+    with_silenced_stdout(|| prop.prepare(tier))?;
     let n = prop.n_cases();
     let id = prop.id();
     let nw = prop.workers().min(n.max(1) as usize).max(1);
